@@ -323,3 +323,4 @@ package redisemu
 //@ modifies respDeserializer.pos respDeserializer.nextPos respDeserializer.lineNumber alloc map<respValue,respValue> map<respValue,struct{}> orderedRespMap respValue Builder
 //@ ensures consumed: valid ==> length > 0 && rl.pos == old(rl.pos)+length && rl.pos <= len(rl.content)
 //@ ensures bounded: old(rl.pos) <= rl.pos && rl.pos <= len(rl.content)
+//@ ensures [C01] invalid: !valid ==> length == 0
